@@ -76,6 +76,28 @@ def check_message(mido, m, acc, ns, do_repr=True):
     except Exception as e:
         acc.violation(f'dict-raises/{m.type}{dlen}/{type(e).__name__}',
                       f'from_dict({m!r}.dict()) raised {e!r}', case)
+    # results belong to the caller: change them, parse the same input again
+    try:
+        text = str(m)
+        a = mido.Message.from_str(text)
+        a.time = 987654
+        b2 = mido.Message.from_str(text)
+        c2 = mido.parse_string(text)
+        d = m.dict()
+        e1 = mido.Message.from_dict(d)
+        e1.time = 987654
+        if m.type == 'sysex':
+            d['data'].append(1)          # the dict is the caller's too
+        e2 = mido.Message.from_dict(m.dict())
+        if not (same_msg(m, b2) and same_msg(m, c2) and same_msg(m, e2)) \
+                or b2 is a or e2 is e1:
+            acc.violation(f'aliased-result/{m.type}',
+                          f'after changing a message returned by from_str/'
+                          f'from_dict for {text!r}, parsing again gave {b2!r} '
+                          f'/ {c2!r} / {e2!r}', case)
+    except Exception as e:
+        acc.violation(f'aliased-result-raises/{m.type}/{type(e).__name__}',
+                      f'{e!r}', case)
     if do_repr:
         try:
             r = repr(m)
